@@ -29,6 +29,8 @@ inductive Finish where
   | drop                                   -- also: a handler that panics while holding the request
   | writer (ops : List WOp)                -- into_writer, raw writes, drop the writer
   | upgrade (proto : Bytes) (r : RespSpec) (ops : List WOp)   -- upgrade, raw writes on the stream, drop it
+  /-- `respond` with a body reader that returns an I/O error once `failAfter` bytes were produced -/
+  | respondFail (r : RespSpec) (failAfter : Nat)
 deriving Repr, Inhabited
 
 /-- what the application does with one delivered request. -/
@@ -37,6 +39,7 @@ structure Action where
   readTotal : Nat              -- total number of body bytes it tries to obtain (0: none)
   bufSize : Nat                -- size of the buffer it reads with (≥ 1)
   fin : Finish
+  zeroRead : Bool := false     -- first performs one `read` with an empty buffer
 deriving Repr, Inhabited
 
 abbrev Script := Nat → Action
@@ -108,6 +111,60 @@ def wopsFlushed : List WOp → Nat → Nat → Nat
   | .write b :: r, pos, mark => wopsFlushed r (pos + b.length) mark
   | .flush :: r, pos, _ => wopsFlushed r pos pos
 
+/-- the first `n` bytes of a piece list, as pieces. -/
+def takePieces : List Bytes → Nat → List Bytes
+  | [], _ => []
+  | p :: ps, n => if n = 0 then [] else if p.length ≤ n then p :: takePieces ps (n - p.length) else [p.take n]
+
+/-- `respond` whose body reader fails after `failAfter` bytes (request.rs:443-460 with
+    response.rs:380-451): what reaches the writer, and whether `respond` returned Ok.
+    * body suppressed (HEAD, 1xx/204/304): the reader is never read — a normal response;
+    * unknown length, identity: `read_to_end` fails before anything is written;
+    * otherwise the head and the bytes copied before the error (chunked: flushed as chunks, with
+      the terminal chunk the encoder writes when it is dropped).
+    `none` = unmodelled q-value. -/
+def printRespFailing (r : RespSpec) (ver : Version) (reqHeaders : List Header) (isHead : Bool) (failAfter : Nat) :
+    Option (Bytes × Bool) :=
+  let total := r.pieces.flatten.length
+  if total ≤ failAfter then (printResp r.toResp r.pieces ver reqHeaders isHead none).map (·, true)
+  else
+    let resp := r.toResp
+    let ctx : ReqCtx := ⟨ver, reqHeaders, isHead, none⟩
+    match framing resp ctx total with
+    | none => none
+    | some (te, len) =>
+      let suppress := isHead || Extracted.noBodyStatus resp.status
+      match te, resp.dataLength with
+      -- the whole body is buffered first (response.rs:383-388), even when it will not be sent
+      | some .identity, none => some ([], false)
+      | _, _ =>
+        if suppress then (printResp resp r.pieces ver reqHeaders isHead none).map (·, true)
+        else
+          let before := takePieces r.pieces failAfter
+          let hs := insertAuto resp.headers fixedDate none ++ framingHeader te len
+          let head := messageHeader ver resp.status hs
+          let body := match te, len with
+            | some .chunked, _ => encodeChunked before
+            | some .identity, some l => if 1 ≤ l then before.flatten else []
+            | _, _ => []
+          -- an identity body of declared length 0 is never copied: no read, no error
+          let ok := match te, len with
+            | some .identity, some l => decide (l = 0)
+            | _, _ => false
+          some (head ++ body, ok)
+
+/-- A `read` with an empty buffer on a streamed body returns 0, which the EOF fuse takes for the end
+    of the body: the reader is dropped on the spot (fused_reader.rs:23-35) and its unread remainder
+    discarded; later reads return end-of-stream.  Buffered bodies, upgrades and empty bodies are
+    not fused.  Returns the new reader state and stream, `none` if the discard blocks. -/
+def zeroReadEffect (b : Body) (bs : Bytes) (fin : EndState) : Option (Body × Bytes) :=
+  match b with
+  | .limited _ | .chunked _ =>
+    (match Body.drain (bs.length + 2) b bs fin with
+     | some bs' => some (.done, bs')
+     | none => none)
+  | _ => some (b, bs)
+
 structure St where
   delivered : List Delivered := []
   out : Bytes := []
@@ -140,9 +197,16 @@ def handle (s : St) (h : Head) (fr : Framing) (last : Bool) (a : Action) (body :
   let s1 := if a.asReaderCalls > 0 && fr.expectContinue then
       s.emit 100 (printResp (Resp.empty 100) [] h.version h.headers true none) true
     else s
+  -- an empty-buffer read first, if the script says so
+  let zr : Option (Body × Bytes) :=
+    if a.asReaderCalls > 0 && a.zeroRead then zeroReadEffect body bs fin else some (body, bs)
+  let (body, bs, zrBlocked) := match zr with
+    | some (b', bs') => (b', bs', false)
+    | none => (body, bs, true)
   -- reads
   let (got, rend, body1, bs1) :=
-    if a.asReaderCalls > 0 && a.readTotal > 0 then
+    if zrBlocked then ([], some ReadOut.pending, body, bs)
+    else if a.asReaderCalls > 0 && a.readTotal > 0 then
       Body.readUpTo (a.readTotal + 1) body (max a.bufSize 1) a.readTotal bs fin
     else ([], none, body, bs)
   let readEnd : ReadEnd := match rend with
@@ -168,6 +232,10 @@ def handle (s : St) (h : Head) (fr : Framing) (last : Bool) (a : Action) (body :
         let b := wopsBytes ops
         let base := s'.out.length
         { s' with out := s'.out ++ b, flushed := wopsFlushed ops base s'.flushed }
+      | .respondFail r failAfter =>
+        (match printRespFailing r h.version h.headers isHead failAfter with
+         | some (bytes, ok) => s2.emit r.status (some bytes) ok      -- flushed only if respond got to its flush
+         | none => s2.emit r.status none false)
     -- the request (and with it the body reader) is dropped: the unread remainder is discarded
     match Body.drain (bs1.length + 2) body1 bs1 fin with
     | some bs2 => (s3, bs2, false)
